@@ -129,6 +129,7 @@ def main():
             rc, o = sh(["./check", p, "quick"], cwd=VERIF, env={"CICADA_REPO": wt}, timeout=3000)
             if saved is not None:   # evidence must describe runs on the unchanged tree only
                 open(ev, "w").write(saved)
+            sh("git checkout -- coq/theories/Gen", cwd=VERIF)   # translator output of the changed tree
             viol = [l for l in o.split("\n") if l.startswith("VIOLATION")]
             checks[p] = {"exit": rc, "violations": viol[:5], "caught": rc == 1 and bool(viol), "wall_s": round(time.time() - t, 1)}
             for v in viol[:1]:
